@@ -20,7 +20,9 @@ CHOICES = [("A", "default"), ("B", "default"), ("Bp", "default"), ("A", "novec")
            # the same fields written the same way, differing only in the hooks of their descriptor
            ("H", "default"), ("Hp", "default"),
            # fields without a struct code: generated code goes through the class's field list
-           ("L", "default"), ("Lp", "default")]
+           ("L", "default"), ("Lp", "default"),
+           # symmetric width swaps (texts that differ only by characters trading places)
+           ("P", "default"), ("Pp", "default")]
 
 
 def mc_cfg(bytecode, procs):
